@@ -33,9 +33,14 @@ META = {
     "claim": "for every enumerated destination that denotes an own listener (same port, same transport, explicit listen address / loopback address or name "
     "for loopback and all-interface listeners) server_connect sets server.error, and through the full proxy core no upstream connection is opened; "
     "exploration because the property is a stateless classification of (destination, configuration)",
-    "rule": "a case is (destination host text, destination port, connection transport, list of (mode spec, listen address list)); distinct = distinct tuple; "
-    "non-trivial = the reference says the destination denotes an own listener (the guard must fire)",
+    "rule": "a case is (destination host text, destination port, connection transport, list of (mode spec, listen address list)), or a reconfiguration "
+    "history (sequence over {set mode/server option, pending binds complete, probe battery of server_connect calls}) on a running Proxyserver; "
+    "distinct = distinct tuple / history; non-trivial = the reference says the destination denotes an own listener (the guard must fire), "
+    "or the history contains a runtime option change",
     "assumptions": [
+        "reconfiguration histories run the real Master/options/Proxyserver.configure/Servers.update/ServerInstance.start+stop on the virtual loop; only the two "
+        "socket-binding calls (asyncio.start_server, mitmproxy_rs.udp.start_udp_server) are replaced by fakes that complete when the environment says so; "
+        "the reference is evaluated on the listeners open at the moment of each connect; depth 4 (quick) / 5 (thorough) over 7 option updates",
         "listen_addrs are what getsockname() reports: numeric addresses, 2-tuples for IPv4 and 4-tuples for IPv6; listen host '' is the dual-stack pair 0.0.0.0 + ::",
         "loopback names are 'localhost' in any letter case with at most one trailing dot; other names that may resolve to loopback (/etc/hosts, *.localhost) are outside the claim",
         "a wildcard destination (0.0.0.0 / ::) is only required to fail when it is literally one of the listen addresses; "
